@@ -550,7 +550,10 @@ def run(ctx):
     # chain layouts: lattice over CHAIN_COMPONENTS; in quick the two longest chains only get the escaping ends
     lengths = CHAIN_LENGTHS_QUICK if ctx.quick else CHAIN_LENGTHS
     maxc_chain, maxc_loop = (2, 1) if ctx.quick else (3, 2)
-    chain_idx = [(CHAIN_LAYOUTS[(n, end)], maxc_chain) for n in lengths for end in CHAIN_ENDS
+    # thorough: three components around the small lengths and around MAXSYMLINKS = 40, two elsewhere (cost ~ length)
+    deep = (1, 2, 8, 39, 40, 41, 42)
+    chain_idx = [(CHAIN_LAYOUTS[(n, end)], maxc_chain if (ctx.quick or n in deep) else 2)
+                 for n in lengths for end in CHAIN_ENDS
                  if not (ctx.quick and n > 100 and not end.startswith(("/", "..")))]
     chain_idx += [(CHAIN_LAYOUTS[("loop", n)], maxc_loop) for n in LOOP_LENGTHS]
     for li, mc in chain_idx:
@@ -591,7 +594,8 @@ def run(ctx):
                    "passthrough_components": list(PT_COMPONENTS), "layouts": [l[0] for l in LAYOUTS[:nlay]],
                    "sibling_layouts": [LAYOUTS[i][0] for i in SIBLING_LAYOUTS], "max_components_sibling_layouts": maxc_sib,
                    "chain_lengths": lengths, "chain_ends": CHAIN_ENDS, "loop_lengths": LOOP_LENGTHS,
-                   "max_components_chain_layouts": maxc_chain, "max_components_loop_layouts": maxc_loop,
+                   "max_components_chain_layouts": maxc_chain, "chain_lengths_at_max_components": list(deep) if not ctx.quick else lengths,
+                   "max_components_other_chain_lengths": 2, "max_components_loop_layouts": maxc_loop,
                    "chain_components": list(CHAIN_COMPONENTS), "call_budget_s": CALL_BUDGET_S,
                    "recursion_budget_frames": RECURSION_LIMIT,
                    "max_components_windows_slash_joined": maxc_slash,
